@@ -1510,3 +1510,8 @@ package pongo2
 //@ func (*Template).ExecuteBlocks
 //@   invariant 0 {C01} @walks-up parent == nil || parent == tpl || (parent.child != nil && tpl.parent != nil)
 //@   decreases 0 {C01} @towards-the-root ite(parent == nil, 0, old(now) - birth(parent) + 1)
+
+// a cycle value never holds another cycle value: printing one that (directly or through others) held itself recursed
+// until the stack overflowed ({% cycle x as x %} in a loop)
+//@ type tagCycleValue
+//@   invariant {C01} self.value == nil || !typeis(VInterface(self.value), "*tagCycleValue")
